@@ -411,7 +411,12 @@ func (s *sim) judgeSuccess(c Case, lab, where string, k int, w hx.FaultWindow, r
 			// success without any effect where the fault-free run is rejected: nothing partial
 			return nil
 		}
-		return hx.Failf("C05/success-where-fault-free-run-is-rejected/"+lab+"/"+where,
+		sig := "C05/success-where-fault-free-run-is-rejected/" + lab + "/" + where
+		if scanErrorDropped(c, w) {
+			// the scan stopped before reaching the document that makes the fault-free run fail
+			sig = sigScanErrorDropped
+		}
+		return hx.Failf(sig,
 			"%s is rejected without faults (%s); with %s it reported success and changed the store:\n%s", mustJSON(c.Op), res0.Err, faultDesc(w, k), hx.FaultDiffKV(pre, post, 8))
 	}
 	if d := hx.FaultDiffKV(twinPost, post, 10); d != "" {
@@ -438,12 +443,156 @@ func (s *sim) judgeSuccess(c Case, lab, where string, k int, w hx.FaultWindow, r
 	return nil
 }
 
+// ---- diagnosers ------------------------------------------------------------------------------
+//
+// A diagnoser decides whether a concrete discrepancy is fully explained by one specific defect
+// (call site AND model condition); when in doubt it does not match and the generic signature
+// (operation kind / storage operation hit) is reported.
+
+const (
+	// collection.updateWithFilter drops the error of selectionPlan.Next() (returns the stale,
+	// nil `err`): the loop ends, the documents updated so far are committed, success is reported.
+	sigScanErrorDropped = "C05/success-partial/updateWithFilter-scan-error-dropped"
+	// coreblock.updateHeads only logs a failed head write ("root is a new head" branch).
+	sigHeadWriteLogged = "C05/success-partial/updateHeads-head-write-error-only-logged"
+	// iterator leaks that make Badger panic "Unclosed iterator at time of Txn.Discard"
+	sigLeakIndexGetFields = "C05/panic/unclosed-iterator/indexFetcher.GetFields-NextDoc-error"
+	sigLeakPlanNotClosed  = "C05/panic/unclosed-iterator/filter-mutation-plan-not-closed-on-init-error"
+)
+
+// stackFuncs lists the functions of a debug.Stack-like text, innermost first, as "pkg.(*T).M".
+func stackFuncs(stack string) []string {
+	out := []string{}
+	for _, line := range strings.Split(stack, "\n") {
+		if strings.HasPrefix(line, "\t") || !strings.Contains(line, "(") {
+			continue
+		}
+		line = strings.TrimSpace(line)
+		if i := strings.LastIndex(line, "("); i > 0 {
+			line = line[:i]
+		}
+		line = line[strings.LastIndex(line, "/")+1:]
+		out = append(out, line)
+	}
+	return out
+}
+
+// calledBy reports whether callee appears directly below caller somewhere in the stack
+// (callee/caller are matched as suffixes of the short function names; callee "" = any function
+// whose name satisfies pred).
+func calledBy(funcs []string, callee func(string) bool, caller string) bool {
+	for i := 1; i < len(funcs); i++ {
+		if strings.HasSuffix(funcs[i], caller) && callee(funcs[i-1]) {
+			return true
+		}
+	}
+	return false
+}
+
+func isReadKind(k hx.FaultOpKind) bool {
+	switch k {
+	case hx.FaultGet, hx.FaultHas, hx.FaultIterator, hx.FaultNext, hx.FaultValue, hx.FaultSeek:
+		return true
+	}
+	return false
+}
+
+func (o Op) containsUpdateFilterAPI() bool {
+	if o.Kind == "updateFilter" && o.Route == "api" {
+		return true
+	}
+	if o.Kind == "txn" {
+		for _, s := range o.Sub {
+			if s.containsUpdateFilterAPI() {
+				return true
+			}
+		}
+	}
+	return false
+}
+
+// scanErrorDropped: the injected read error was returned by selectionPlan.Next() to
+// collection.updateWithFilter (the only place where that function drops an error).
+func scanErrorDropped(c Case, w hx.FaultWindow) bool {
+	if !c.Op.containsUpdateFilterAPI() || !w.Fired || !isReadKind(w.FiredOp.Kind) {
+		return false
+	}
+	return calledBy(stackFuncs(w.FiredStack), func(f string) bool {
+		return strings.HasPrefix(f, "planner.") && strings.HasSuffix(f, ".Next")
+	}, "db.(*collection).updateWithFilter")
+}
+
+// docData groups the /db/data entries by document.
+func docData(kvs []hx.FaultKV) map[string]string {
+	out := map[string]string{}
+	for _, kv := range kvs {
+		k := string(kv.K)
+		if !strings.HasPrefix(k, "/db/data/") {
+			continue
+		}
+		parts := strings.Split(strings.TrimPrefix(k, "/db/data/"), "/")
+		if len(parts) < 3 || !strings.HasPrefix(parts[2], "bae-") {
+			continue
+		}
+		out[parts[2]] += k + "=" + string(kv.V) + ";"
+	}
+	return out
+}
+
+func changedDocs(a, b map[string]string) map[string]bool {
+	out := map[string]bool{}
+	for k, v := range a {
+		if b[k] != v {
+			out[k] = true
+		}
+	}
+	for k := range b {
+		if _, ok := a[k]; !ok {
+			out[k] = true
+		}
+	}
+	return out
+}
+
 // diagnosePartial names a success whose final store differs from the fault-free result.
 func diagnosePartial(c Case, lab, where string, k int, w hx.FaultWindow, diff string, pre, post, twinPost []hx.FaultKV) *hx.Failure {
 	sig := "C05/success-partial/" + lab + "/" + where
+	why := ""
+	switch {
+	case scanErrorDropped(c, w):
+		// model condition: a strict subset of the documents the fault-free run changes was
+		// changed, each of them completely
+		p, q, t := docData(pre), docData(post), docData(twinPost)
+		got, want := changedDocs(p, q), changedDocs(p, t)
+		ok := len(got) < len(want)
+		for d := range got {
+			if !want[d] || q[d] != t[d] {
+				ok = false
+			}
+		}
+		if ok {
+			sig = sigScanErrorDropped
+			why = fmt.Sprintf("diagnosis: the injected error was returned by selectionPlan.Next() inside collection.updateWithFilter, which returns the stale nil `err` instead of `nextErr`; %d of the %d matching documents were updated and committed.\n", len(got), len(want))
+		}
+	case w.Fired && w.FiredOp.Kind == hx.FaultSet && w.FiredOp.Namespace() == "/db/heads" &&
+		calledBy(stackFuncs(w.FiredStack), func(f string) bool { return strings.HasSuffix(f, "(*heads).Write") }, "block.updateHeads"):
+		// model condition: the only difference is the head entry whose write failed
+		only := hx.FaultDiffKV(twinPost, post, 3)
+		if strings.Count(only, "\n") == 1 && strings.HasPrefix(only, "  removed ") && strings.Contains(only, fmt.Sprintf("%q", trimQuote(w.FiredOp.Key))) {
+			sig = sigHeadWriteLogged
+			why = "diagnosis: coreblock.updateHeads only logs the failed head write (\"root is a new head\" branch); the commit is merged but is not a head.\n"
+		}
+	}
 	return hx.Failf(sig,
-		"%s with %s reported success, but the store differs from the fault-free result (- = only fault-free, + = only faulted):\n%s",
-		mustJSON(c.Op), faultDesc(w, k), strings.NewReplacer("removed", "-", "added  ", "+").Replace(diff))
+		"%s with %s reported success, but the store differs from the fault-free result (- = only fault-free, + = only faulted):\n%s%s",
+		mustJSON(c.Op), faultDesc(w, k), strings.NewReplacer("removed", "-", "added  ", "+").Replace(diff), why)
+}
+
+func trimQuote(s string) string {
+	if len(s) > 120 {
+		return s[:120] + "…"
+	}
+	return s
 }
 
 // leakSite condenses the creation stack of a leaked iterator to the chain of defradb functions
@@ -471,7 +620,8 @@ func leakSite(stack string) string {
 }
 
 // diagnosePanic names a panic of the code under test. Badger's "Unclosed iterator at time of
-// Txn.Discard" is attributed to the code that created the iterator that was left open.
+// Txn.Discard" is attributed to the code that created the iterator that was left open and to the
+// call site that received the injected error.
 func diagnosePanic(c Case, lab, where, stack string, w hx.FaultWindow, k int, leaks []string) *hx.Failure {
 	first := stack
 	if i := strings.Index(first, "\n"); i > 0 {
@@ -487,8 +637,31 @@ func diagnosePanic(c Case, lab, where, stack string, w hx.FaultWindow, k int, le
 			names = append(names, s)
 		}
 		sort.Strings(names)
-		return hx.Failf("C05/panic/unclosed-iterator/"+strings.Join(names, "+"),
-			"%s with %s panicked: %s; the iterator left open was created by:\n%s", mustJSON(c.Op), faultDesc(w, k), first, trimTo(leaks[0], 2500))
+		sig := "C05/panic/unclosed-iterator/" + strings.Join(names, "+")
+		why := ""
+		fired := stackFuncs(w.FiredStack)
+		has := func(suffix string) func(string) bool {
+			return func(f string) bool { return strings.HasSuffix(f, suffix) }
+		}
+		if len(names) == 1 && w.Fired {
+			switch {
+			case strings.HasSuffix(names[0], "<fetcher.(*indexFetcher).GetFields") &&
+				calledBy(fired, has("fetcher.(*prefixFetcher).NextDoc"), "fetcher.(*indexFetcher).GetFields"):
+				sig = sigLeakIndexGetFields
+				why = "diagnosis: indexFetcher.GetFields returns the error of prefixFetcher.NextDoc() without closing the prefix fetcher it has just created."
+			case strings.HasSuffix(names[0], "<fetcher.(*wrappingFetcher).Start") &&
+				(calledBy(fired, func(f string) bool {
+					return strings.HasPrefix(f, "planner.") && (strings.HasSuffix(f, ".Init") || strings.HasSuffix(f, ".Start"))
+				}, "db.(*collection).updateWithFilter") || calledBy(fired, func(f string) bool {
+					return strings.HasPrefix(f, "planner.") && (strings.HasSuffix(f, ".Init") || strings.HasSuffix(f, ".Start"))
+				}, "db.(*collection).deleteWithFilter")):
+				sig = sigLeakPlanNotClosed
+				why = "diagnosis: collection.updateWithFilter/deleteWithFilter register the deferred selectionPlan.Close() only after Init() and Start() succeeded; an error inside Init()/Start() leaves the scan's iterator open."
+			}
+		}
+		return hx.Failf(sig,
+			"%s with %s panicked: %s\n%s\nthe error was injected into:\n%s\nthe iterator left open was created by:\n%s",
+			mustJSON(c.Op), faultDesc(w, k), first, why, trimTo(w.FiredStack, 1500), trimTo(leaks[0], 2000))
 	}
 	return hx.Failf("C05/panic/"+hx.PanicSite(stack)+"/"+lab, "%s with %s panicked: %s\n%s", mustJSON(c.Op), faultDesc(w, k), first, trimTo(stack, 2500))
 }
